@@ -134,6 +134,11 @@ impl Connection {
     pub fn verif_calls() -> (u32, u64) {
         unsafe { (VERIF_CALLS, VERIF_LAST_TAG) }
     }
+    /// a state that reports its send timer as deadline without carrying a payload (moving a 4 KB
+    /// OnlineState into a peer stored in a heap-backed map is what makes C20 harnesses expensive)
+    pub fn verif_set_connecting(&mut self) {
+        self.state = State::Connecting;
+    }
     pub fn verif_set_online(&mut self) {
         self.state = State::Online(OnlineState::new(None));
     }
